@@ -406,10 +406,13 @@ func check(surface string, mode int, data []byte, planted bool) string {
 	if atomic.LoadInt32(&spinSeen) != 0 {
 		return "" // a spinning decoder has been reported by this process: every further case would only wait out the limit
 	}
-	o := run(25 * time.Second)
+	// 240 s for at most 1 MiB of input is three to four orders of magnitude above what any of these decoders needs
+	// on an idle machine (milliseconds), so it still separates "never returns" from "starved by a machine that is
+	// running a hundred other processes" - which a 25 s limit did not (thorough sweep beside twenty test suites).
+	o := run(240 * time.Second)
 	if o.TimedOut {
 		atomic.StoreInt32(&spinSeen, 1)
-		return fmt.Sprintf("surface %s mode %d: decoder did not return within 25 s on a %d-byte input (spin / unbounded loop)", surface, mode, len(data))
+		return fmt.Sprintf("surface %s mode %d: decoder did not return within 240 s on a %d-byte input (spin / unbounded loop)", surface, mode, len(data))
 	}
 	if o.Elapsed > 4*time.Second {
 		ev.Class("slow-under-load")
